@@ -125,10 +125,17 @@ Subst(out, table) ==
     Flatten([i \in 1..Len(out) |->
         IF IsSym(out[i]) THEN (CHOOSE e \in table : e.k = out[i] - SymBase).t ELSE <<out[i]>>])
 
+\* ---- tight tags: nothing between a delimiter (with or without its dash) and the tag's content ---
+IsGap(p) == "w" \in DOMAIN p /\ p.w = " "
+TightGap(ps, i) == IsGap(ps[i]) /\ ((i > 1 /\ IsDelim(ps[i - 1]) /\ IsOpen(ps[i - 1])) \/ (i < Len(ps) /\ IsDelim(ps[i + 1]) /\ ~IsOpen(ps[i + 1])))
+Tighten(ps) == Flatten([i \in 1..Len(ps) |-> IF TightGap(ps, i) THEN <<>> ELSE <<ps[i]>>])
+IsTight(c) == "tight" \in DOMAIN c /\ c.tight
+
 \* ---- cases -----------------------------------------------------------------------------------
 \* a layout assigns a dash set to the entry template only (the other templates stay plain)
 Pieces(name, t) == UBody(Corpus[name][t], LMin)
 MainPieces(name) == Pieces(name, "main")
+PiecesOf(c, t) == IF IsTight(c) /\ t = "main" THEN Tighten(Pieces(c.s, t)) ELSE Pieces(c.s, t)
 
 DashSets(n) ==
     IF n <= AllSubsetsUpTo THEN SUBSET (1..n)
@@ -137,21 +144,23 @@ DashSets(n) ==
 
 Cases == UNION {{[s |-> name, D |-> D, style |-> style] : D \in DashSets(NDelims(MainPieces(name))), style \in Styles}
                 : name \in DOMAIN Corpus}
+         \cup UNION {{[s |-> name, D |-> D, style |-> style, tight |-> TRUE] : D \in DashSets(NDelims(MainPieces(name))), style \in {"sp", "none", "mix"}}
+                : name \in DOMAIN Corpus}
 
 AllTexts(c) ==
-    UNION {SymTexts(Pieces(c.s, t), IF t = "main" THEN c.D ELSE {}, Sty(c)) : t \in DOMAIN Corpus[c.s]}
+    UNION {SymTexts(PiecesOf(c, t), IF t = "main" THEN c.D ELSE {}, Sty(c)) : t \in DOMAIN Corpus[c.s]}
 
 Ref(c) == Render(MkW(Corpus[c.s], {"upper"}, {}, NoFault), "main", Ctx)
 Expected(c) == Subst(Ref(c).out, AllTexts(c))
 
 SourcesOf(c, hand) ==
     [t \in DOMAIN Corpus[c.s] |->
-        IF hand THEN HandPieces(Pieces(c.s, t), IF t = "main" THEN c.D ELSE {}, Sty(c))
-        ELSE DashedPieces(Pieces(c.s, t), IF t = "main" THEN c.D ELSE {}, Sty(c))]
+        IF hand THEN HandPieces(PiecesOf(c, t), IF t = "main" THEN c.D ELSE {}, Sty(c))
+        ELSE DashedPieces(PiecesOf(c, t), IF t = "main" THEN c.D ELSE {}, Sty(c))]
 
 CaseOf(c) ==
     [prop |-> "C13", key |-> ToJson(c),
-     tags |-> {"s:" \o c.s, "style:" \o c.style, "ndash:" \o ToString(Cardinality(c.D))},
+     tags |-> {"s:" \o c.s, "style:" \o c.style, "ndash:" \o ToString(Cardinality(c.D))} \cup (IF IsTight(c) THEN {"tight"} ELSE {}),
      entry |-> "main", ctx |-> Ctx, rel |-> "same",
      runs |-> <<[label |-> "dashed", tp |-> SourcesOf(c, FALSE), xcalls |-> [id \in {} |-> 0]],
                 [label |-> "hand", tp |-> SourcesOf(c, TRUE), xcalls |-> [id \in {} |-> 0]]>>,
